@@ -1,3 +1,4 @@
+import Proofs.C18Pins
 import Proofs.C18
 import Proofs.C18Sem
 import Proofs.C18Idiom
@@ -262,3 +263,18 @@ example : (execStmts 60 (annStmts ⟨[]⟩ sample).2 [1, 1, 0] []).map (fun r =>
     some [1, 0, 1, 0, 1, 1] := by decide
 
 end GoawkModel.C18.Props
+
+/-! ## Pinned source text (regenerated tie; extract/pins.go, tools/repin.py)
+An edit of one of these functions in /repo breaks the matching obligation: the model below was written from the text
+in `Proofs.C18Pins` and has to be compared with the new text before it is re-pinned. -/
+namespace GoawkModel.Pins.C18
+theorem pin_cover_Annotate : Generated.C18Pins.cover_Annotate = Expected.cover_Annotate := rfl
+theorem pin_cover_annotateActions : Generated.C18Pins.cover_annotateActions = Expected.cover_annotateActions := rfl
+theorem pin_cover_annotateFunctions : Generated.C18Pins.cover_annotateFunctions = Expected.cover_annotateFunctions := rfl
+theorem pin_cover_annotateStmtsList : Generated.C18Pins.cover_annotateStmtsList = Expected.cover_annotateStmtsList := rfl
+theorem pin_cover_annotateStmts : Generated.C18Pins.cover_annotateStmts = Expected.cover_annotateStmts := rfl
+theorem pin_cover_trackStatement : Generated.C18Pins.cover_trackStatement = Expected.cover_trackStatement := rfl
+theorem pin_endPos : Generated.C18Pins.endPos = Expected.endPos := rfl
+theorem pin_list : Generated.C18Pins.pinned = Expected.pinned := rfl
+end GoawkModel.Pins.C18
+-- end of pinned source text
